@@ -86,6 +86,24 @@ CLAIMS = {
              'indexing on map-supplied lines/indices) — reading found real panics there for wild maps; no discharge analysis is in reach.',
         technique='interval/range discharge of MIR Assert terminators with guard provenance; loop/recursion census; panic-site census',
         design_ref='§5 C17'),
+    'C07': dict(
+        category='other',
+        text='Static, for every tree: per source type the three byte views (buffer, size, to_writer) are computed from one basis — the same '
+             'data fields, or the same-named view of the children, or the type\'s own source() — and so are the two text views '
+             '(source, rope); wrappers forward each view to the same view of the wrapped source (DELEG); no to_writer body drops, unwraps or '
+             'ignores a writer error: each io::Result is returned or propagated with `?` (IOERR). NOT decided: that rope() renders to source(), '
+             'concatenation order, lossy decoding, the prefix property of a failed write.',
+        technique='view-basis comparison (field-access sets + resolved trait callees per view) and def-use of call results on MIR',
+        design_ref='§5 C07'),
+    'C13': dict(
+        category='other',
+        text='Static: the structural core of "boxing / caching / a single-child concat / an empty ReplaceSource.map behave exactly like the '
+             'wrapped source": BoxSource (6 Source methods + stream_chunks) and CachedSource (5 content views) make exactly one Source '
+             'call, the same-named method on the wrapped object with their own parameters in order, and return its result; ConcatSource\'s '
+             'single-child fast paths and ReplaceSource::map forward likewise (DELEG D3). NOT decided: attribution equality of regrouped '
+             'trees, closing segments through boxed concats, empty-source neutrality.',
+        technique='forwarding check over resolved trait callees, argument provenance and result flow on MIR',
+        design_ref='§5 C13'),
 }
 
 NOT_APPLICABLE = {
